@@ -36,17 +36,13 @@ type Document struct {
 //
 // It also makes sure that resources are not added twice.
 func (d *Document) Include(res Resource) {
-	key := res.Get("id").(string) + " " + res.GetType().Name
-
 	if len(d.Included) == 0 {
 		d.Included = []Resource{}
 	}
 
 	if dres, ok := d.Data.(Resource); ok {
 		// Check resource
-		rkey := dres.Get("id").(string) + " " + dres.GetType().Name
-
-		if rkey == key {
+		if sameTypeAndID(dres, res) {
 			return
 		}
 	} else if col, ok := d.Data.(Collection); ok {
@@ -55,22 +51,27 @@ func (d *Document) Include(res Resource) {
 		// Each member is compared since a collection does not
 		// necessarily have a type (Resources can mix types).
 		for i := 0; i < col.Len(); i++ {
-			rkey := col.At(i).Get("id").(string) + " " + col.At(i).GetType().Name
-
-			if rkey == key {
+			if sameTypeAndID(col.At(i), res) {
 				return
 			}
 		}
 	}
 
 	// Check already included resources
-	for _, res := range d.Included {
-		if key == res.Get("id").(string)+" "+res.GetType().Name {
+	for _, inc := range d.Included {
+		if sameTypeAndID(inc, res) {
 			return
 		}
 	}
 
 	d.Included = append(d.Included, res)
+}
+
+// sameTypeAndID reports whether the two resources have the same type name and
+// the same ID.
+func sameTypeAndID(r1, r2 Resource) bool {
+	return r1.GetType().Name == r2.GetType().Name &&
+		r1.Get("id").(string) == r2.Get("id").(string)
 }
 
 // MarshalDocument marshals a document according to the JSON:API speficication.
